@@ -456,9 +456,10 @@ Proof.
   repeat (destruct H as [-> | H]; [vm_compute; repeat split; reflexivity|]). subst. vm_compute. repeat split; reflexivity.
 Qed.
 
-Lemma pc_form_decode_enc : forall s, Forall (fun b => b < 256) s -> pc_form_decode (pc_enc s) = s.
+Lemma pc_pct_plus_enc : forall s, Forall (fun b => b < 256) s ->
+  pc_pct (map (fun c => if c =? 43 then 32 else c) (pc_enc s)) = s.
 Proof.
-  unfold pc_form_decode. induction s as [|b s IH]; intro H; [reflexivity|].
+  induction s as [|b s IH]; intro H; [reflexivity|].
   inversion H as [|? ? Hb Hs]. subst. specialize (IH Hs).
   assert (Hh : b / 16 < 16) by (apply N.div_lt_upper_bound; lia).
   assert (Hl : b mod 16 < 16) by (apply N.mod_lt; lia).
@@ -467,6 +468,16 @@ Proof.
   change (37 =? 43) with false. cbv iota. cbn [pc_pct]. change (37 =? 37) with true. cbv iota.
   rewrite Hh1, Hl1. fold (pc_enc s). rewrite IH. f_equal.
   rewrite N.mul_comm. symmetry. apply N.div_mod. lia.
+Qed.
+
+(* the percent-encoding of f delivers the lossy UTF-8 reading of f, f itself when it is UTF-8 *)
+Lemma pc_form_decode_enc : forall s, Forall (fun b => b < 256) s -> pc_form_decode (pc_enc s) = pc_utf8_lossy s.
+Proof. intros s H. unfold pc_form_decode. now rewrite pc_pct_plus_enc. Qed.
+
+Lemma pc_utf8_lossy_ascii : forall s, Forall (fun b => b < 128) s -> pc_utf8_lossy s = s.
+Proof.
+  induction s as [|b s IH]; intro H; [reflexivity|]. inversion H as [|? ? Hb Hs]. subst.
+  cbn [pc_utf8_lossy]. apply N.ltb_lt in Hb. rewrite Hb. now rewrite IH.
 Qed.
 
 Lemma pc_enc_no_amp : forall s, Forall (fun b => b < 256) s -> ~ In 38 (pc_enc s).
@@ -488,7 +499,7 @@ Proof. intros v r. reflexivity. Qed.
 
 (* whatever bytes f consists of, "file=<every byte of f percent-encoded>" delivers exactly f to the decision *)
 Lemma pc_get_file_enc : forall f, Forall (fun b => b < 256) f ->
-  pc_get_file (Some (pc_file_kw ++ 61 :: pc_enc f)) = PExact f.
+  pc_get_file (Some (pc_file_kw ++ 61 :: pc_enc f)) = PExact (pc_utf8_lossy f).
 Proof.
   intros f Hf. unfold pc_get_file.
   rewrite pc_split_none.
@@ -1023,4 +1034,36 @@ Proof.
   split; [eexists; split; vm_compute; reflexivity|].
   split; [|vm_compute; reflexivity].
   intros [k Hk]. vm_compute in Hk. discriminate Hk.
+Qed.
+
+(* ---------------------------------------------------------------- names that are not UTF-8 *)
+(* the text of a path carries every component's octets as they are *)
+Lemma pc_render_component : forall p c, In c p -> exists a b, pc_render p = a ++ c_slash :: c ++ b.
+Proof.
+  intros p c Hin. apply in_split in Hin as (l1 & l2 & ->).
+  exists (flat_map (fun d => c_slash :: d) l1), (flat_map (fun d => c_slash :: d) l2).
+  unfold pc_render. destruct (l1 ++ c :: l2) eqn:E; [now destruct l1|]. rewrite <- E.
+  rewrite flat_map_app. reflexivity.
+Qed.
+
+(* A request whose RESOLVED location has a component that is not UTF-8 (reached
+   through a link, or because the update directory itself resolves to such a
+   name), inside the directory: answered like any other accepted request, the
+   path put on the queue carries the octets of that component as the file
+   system has them; what is shown of it is the lossy text. *)
+Lemma pc_non_utf8_target_answered : forall cwd api s pre rq post d f dir k c,
+  pc_to_queue api rq ->
+  snd (pc_after s pre) = Some d ->
+  pc_get_file (rq_query rq) = PExact f -> pc_is_abs f = false ->
+  pc_canon (fst (pc_after s pre)) cwd d = inr dir ->
+  pc_canon (fst (pc_after s pre)) cwd (pc_push (pc_render dir) f) = inr (dir ++ k) ->
+  In c (dir ++ k) -> ~ pc_is_utf8 c ->
+  nth_error (pc_run cwd api s (pre ++ EReq rq :: post)) (pc_requests pre) =
+    Some (Some (pc_status (rq_mode rq), [dir ++ k])) /\
+  (exists a b, pc_entry_text (dir ++ k) = a ++ c_slash :: c ++ b) /\
+  pc_shown (dir ++ k) = pc_utf8_lossy (pc_entry_text (dir ++ k)).
+Proof.
+  intros cwd api s pre rq post d f dir k c Hq Hu Hf Ha Hd Hfull Hin _.
+  split; [now apply (pc_history_inside_accepted cwd api s pre rq post d f dir k)|].
+  split; [now apply pc_render_component | reflexivity].
 Qed.
